@@ -82,9 +82,12 @@ class SimpleMatcher(BaseMatcher):
         Note: In contrast with a regular HMM, this is not a probability density function, it needs
               to be a proper probability (thus values between 0.0 and 1.0).
         """
+        # Half-normal density normalized to max 1 (thus halfnorm.logpdf(dist) + obs_noise_logint).
+        # Computed in closed form: the sum of the two separately rounded terms can be slightly larger
+        # than 0 for dist = 0, which is not a valid log probability.
         if is_ne:
-            result = self.obs_noise_dist_ne.logpdf(dist) + self.obs_noise_logint_ne
+            result = -0.5 * (dist / self.obs_noise_ne) ** 2
         else:
-            result = self.obs_noise_dist.logpdf(dist) + self.obs_noise_logint
+            result = -0.5 * (dist / self.obs_noise) ** 2
         # print("logprob_obs: {} -> {:.5f} = {:.5f}".format(dist, result, math.exp(result)))
         return result, {}
